@@ -133,6 +133,9 @@ func vfGenConf(t *rapid.T, cam vfCamDesc, simpleMotion bool) vfConf {
 		if rapid.Bool().Draw(t, "set_onediff") {
 			m.OneDiff = vfBP(rapid.Bool().Draw(t, "onediff"))
 		}
+		if rapid.IntRange(0, 3).Draw(t, "set_verbose") == 0 {
+			m.Verbose = vfBP(true)
+		}
 		switch rapid.IntRange(0, 7).Draw(t, "set_bounds") {
 		case 0:
 			m.TMin = vfIP(rapid.SampledFrom([]int{2000, 29000}).Draw(t, "tmin"))
@@ -183,6 +186,9 @@ func vfEffectiveMotion(model string, o vfMotionOv) goconfig.ThermalMotion {
 	}
 	if o.Warmer != nil {
 		m.WarmerOnly = *o.Warmer
+	}
+	if o.Verbose != nil {
+		m.Verbose = *o.Verbose
 	}
 	return m
 }
